@@ -369,9 +369,16 @@ func (x *Exec) applySummary(st *State, f *Frame, in *ssa.Call, fn *ssa.Function,
 			}
 			o := x.newObj(st, shortFn(fn.String())+".result@"+x.pos(in.Pos()), "Fresh", et.String(), slots)
 			res = append(res, P{obj: o.id})
-		case k == "newslice":
-			// fresh byte slice of fixed length given as "newslice" with N from op suffix; not used yet
-			x.fail("newslice unsupported")
+		case strings.HasPrefix(k, "bytes"):
+			// fresh byte slice of fixed length: bytes<N>
+			n, _ := strconv.Atoi(k[5:])
+			v := x.d.App(opName(), -1, ins)
+			slots := make([]Val, n)
+			for j := range slots {
+				slots[j] = W{x.d.Limb(v, j, n, 8)}
+			}
+			o := x.newObj(st, shortFn(fn.String())+".result@"+x.pos(in.Pos()), "Fresh", "[]byte", slots)
+			res = append(res, S{obj: o.id, ln: n, cp: n, esz: 1})
 		default:
 			x.fail("summary %s: bad result kind %s", sm.Fn, k)
 		}
@@ -863,7 +870,8 @@ func (x *Exec) stub(st *State, f *Frame, in *ssa.Call, fn *ssa.Function, name st
 	return false
 }
 
-// math/big is modelled over mathematical integers (abstract Int-sorted nodes, W == -2).
+// math/big is modelled over 256-bit values (every big.Int in this module holds a value < 2^256:
+// 32-byte encodings, the group order, and the result of Exp modulo the order).
 func (x *Exec) bigStub(st *State, f *Frame, in *ssa.Call, fn *ssa.Function, name string, args []Val) bool {
 	d := x.d
 	objOf := func(v Val) int {
@@ -876,68 +884,70 @@ func (x *Exec) bigStub(st *State, f *Frame, in *ssa.Call, fn *ssa.Function, name
 	val := func(v Val) *Node {
 		n, ok := st.bigv[objOf(v)]
 		if !ok {
-			return d.mk("intconst", -2, "", 0, 0, big.NewInt(0))
+			return d.ConstI(256, 0)
 		}
 		return n
 	}
 	switch name {
 	case "math/big.NewInt":
 		n := x.word(args[0])
-		if !n.IsConst() {
-			x.fail("big.NewInt of symbolic value")
+		if !n.IsConst() || signed(n.Val, 64).Sign() < 0 {
+			x.fail("big.NewInt of symbolic or negative value")
 		}
 		o := x.newObj(st, "big.Int", "Fresh", "big.Int", x.zeroSlots(x.lookupType("math/big", "Int"), nil))
-		st.bigv[o.id] = d.mk("intconst", -2, "", 0, 0, signed(n.Val, 64))
+		st.bigv[o.id] = d.Const(256, n.Val)
 		x.ret(f, in, P{obj: o.id})
 		return true
 	case "(*math/big.Int).SetBytes":
 		s := args[1].(S)
+		if s.ln > 32 {
+			x.fail("big.Int.SetBytes of more than 32 bytes is outside the 256-bit model")
+		}
 		var bs []*Node
 		for i := 0; i < s.ln; i++ {
 			bs = append(bs, x.word(x.obj(st, s.obj).slots[s.off+i]))
 		}
-		st.bigv[objOf(args[0])] = d.mk("os2ip", -2, "", 0, len(bs), nil, bs...)
+		v := d.ConstI(256, 0)
+		allc := true
+		for _, b := range bs {
+			if !b.IsConst() {
+				allc = false
+			}
+		}
+		if allc {
+			acc := new(big.Int)
+			for _, b := range bs {
+				acc.Lsh(acc, 8)
+				acc.Or(acc, b.Val)
+			}
+			v = d.Const(256, acc)
+		} else {
+			v = d.mk("catbe", 256, "", 0, len(bs), nil, bs...)
+		}
+		st.bigv[objOf(args[0])] = v
 		x.ret(f, in, args[0])
 		return true
 	case "(*math/big.Int).Exp":
-		r := d.mk("app", -2, "modexp", 0, 0, nil, val(args[1]), val(args[2]), val(args[3]))
+		r := d.App("modexp", 256, []*Node{val(args[1]), val(args[2]), val(args[3])})
 		st.bigv[objOf(args[0])] = r
 		x.ret(f, in, args[0])
 		return true
 	case "(*math/big.Int).Bytes":
 		v := val(args[0])
-		cands := x.cfg.Concretize["bigbytes"]
-		if cands == nil {
-			x.fail("big.Int.Bytes needs concretize[bigbytes]")
+		// minimal big-endian encoding: length L in 0..32, exhaustive and mutually exclusive
+		L := x.choose(st, 33)
+		if L < 32 {
+			st.pc = append(st.pc, d.Cmp("ult", v, d.Const(256, new(big.Int).Lsh(big.NewInt(1), uint(8*L)))))
 		}
-		c := x.choose(st, len(cands)+1)
-		if c == len(cands) {
-			// remainder: length outside the candidates; driver must show infeasible
-			lenv := d.mk("app", 64, "bytelen", 0, 0, nil, v)
-			rest := d.Bool(true)
-			for _, k := range cands {
-				rest = d.BAnd(rest, d.BNot(d.Cmp("eq", lenv, d.ConstI(64, k))))
-			}
-			st.pc = append(st.pc, rest)
-			st.end = "unhandled"
-			st.err = "big.Int.Bytes length outside candidates"
-			panic(pathEnd{})
+		if L > 0 {
+			st.pc = append(st.pc, d.Cmp("ule", d.Const(256, new(big.Int).Lsh(big.NewInt(1), uint(8*(L-1)))), v))
 		}
-		n := int(cands[c])
-		slots := make([]Val, n)
-		bs := make([]*Node, n)
+		slots := make([]Val, L)
 		for i := range slots {
-			bs[i] = x.freshVar("bigbyte", 8)
-			slots[i] = W{bs[i]}
-		}
-		// contract: minimal big-endian encoding of the value
-		st.pc = append(st.pc, d.mk("inteq", 0, "", 0, 0, nil, d.mk("os2ip", -2, "", 0, n, nil, bs...), v))
-		st.pc = append(st.pc, d.Cmp("eq", d.mk("app", 64, "bytelen", 0, 0, nil, v), d.ConstI(64, int64(n))))
-		if n > 0 {
-			st.pc = append(st.pc, d.BNot(d.Cmp("eq", bs[0], d.ConstI(8, 0))))
+			slots[i] = W{d.Extract(v, 8*(L-1-i), 8)}
 		}
 		o := x.newObj(st, "big.Bytes", "Fresh", "[]byte", slots)
-		x.ret(f, in, S{obj: o.id, ln: n, cp: n, esz: 1})
+		x.ret(f, in, S{obj: o.id, ln: L, cp: L, esz: 1})
 		return true
 	}
 	x.fail("math/big function %s is not modelled", name)
